@@ -287,9 +287,15 @@ FPow(x, y) ==
          IF YNeg(y) THEN (IF YOdd(y) THEN NZero ELSE Zero)
          ELSE (IF YOdd(y) THEN NInf ELSE PInf)
     ELSE IF ~YInt(y) THEN (IF x.num < 0 THEN NaN ELSE Undef)
-    ELSE IF y.exp > 3 THEN Undef
+    \* (-1)^y for a whole number y of ANY magnitude (2^31, 2^32, ..): the parity of y decides (floats are
+    \* normalised: y is odd iff its exponent is 0)
+    ELSE IF Abs(x.num) = 1 /\ x.exp = 0 THEN (IF YOdd(y) THEN x ELSE One)
+    ELSE IF y.exp > 6 \/ Abs(y.num) > 127 THEN Undef
     ELSE LET k == y.num * P2(y.exp)
-         IN IF Abs(k) > 8 \/ Abs(x.exp) > 12 \/ ~PowLe(Abs(x.num), Abs(k), 1073741824) THEN Undef
+         IN \* powers of two (x = +-2^e) to any whole power, positive or negative, inside the exponent range
+            IF Abs(x.num) = 1 THEN (IF Abs(x.exp * k) > 100 THEN Undef
+                                    ELSE Fin(IF k % 2 = 0 THEN 1 ELSE x.num, x.exp * k))
+            ELSE IF Abs(k) > 8 \/ Abs(x.exp) > 12 \/ ~PowLe(Abs(x.num), Abs(k), 1073741824) THEN Undef
             ELSE IF k > 0 THEN Fin(IPow(x.num, k), x.exp * k)
             ELSE IF Abs(x.num) = 1 THEN Fin(IPow(x.num, -k), x.exp * k)
             ELSE Undef
